@@ -153,6 +153,10 @@ def run(idx, rep, tier):
                    ("" if ok else "; required N, N-1, N for one size N"), detail="" if ok else "sizes", locs=[idx.loc(lanczos.module, lanczos.node)])
     else:
         rep.undecided("trimming", "lanczos:trim", "trimming assignment not found")
+    # ---- what the size N counts: the number of steps that were run = final loop counter - its initial value.  `info['iterations']`
+    # of the loop runner counts evaluations of the loop CONDITION (it is incremented in the wrapper of cond), one more than the steps.
+    if trims:
+        trim_count(idx, rep, lanczos, fact, init, size if size is not None else next(iter(trims.values())))
     buffer_dtype_obligations(idx, rep, init, "buffer-dtype")
     # ---- the loop stops at an exact breakdown
     from sa.krylov import breakdown_stops
@@ -173,3 +177,93 @@ def run(idx, rep, tier):
                        "T built with one array in both off-diagonal slots whose entries are norms, start vector normalised into column 1 without writing the caller's array, "
                        "Gram-Schmidt coefficients conjugate the basis they are later multiplied with, Ritz values ascending with paired vector columns, consistent trimming.")
     rep.assumptions += ["orthonormality, the three-term recurrence, early termination and A Q - Q T are numerical and not decided", "the annotation of Q is C05"]
+
+
+def trim_count(idx, rep, lanczos, fact, init, size_text):
+    loops = [l_ for l_ in lp.find_loops(idx, fact) if l_.kind != "for"]
+    if not loops:
+        rep.undecided("trimming", "lanczos:count", "loop of the factorisation not found")
+        return
+    cert = lp.cap_certificate(idx, loops[0])
+    slot = cert.get("counter_slot")
+    start = lp.init_slot(loops[0], slot, idx) if slot is not None else None
+    if start is None or not isinstance(start, ast.Constant):
+        irets = [r.value for r in df.returns(init.node) if isinstance(r.value, ast.Tuple)]
+        if irets and slot is not None and -len(irets[0].elts) <= slot < len(irets[0].elts):
+            e = df.resolve_value(init.node, irets[0].elts[slot])
+            if isinstance(e, ast.Call) and e.args and isinstance(e.args[0], ast.Constant):
+                start = e.args[0]
+    start_v = start.value if isinstance(start, ast.Constant) and isinstance(start.value, int) else None
+    # position of the counter in what the factorisation returns: the name bound to the counter slot of the loop's result
+    pos = None
+    for st in df.body_nodes(fact.node):
+        if isinstance(st, ast.Assign) and isinstance(st.targets[0], ast.Tuple) and isinstance(st.value, ast.Call) and st.value is loops[0].call and slot is not None:
+            elts = st.targets[0].elts
+            cname = elts[slot].id if -len(elts) <= slot < len(elts) and isinstance(elts[slot], ast.Name) else None
+            for r in df.returns(fact.node):
+                if isinstance(r.value, ast.Tuple) and cname is not None:
+                    names = [e.id if isinstance(e, ast.Name) else None for e in r.value.elts]
+                    if cname in names:
+                        pos = names.index(cname)
+    counter_local = info_local = None
+    for st in df.body_nodes(lanczos.node):
+        if isinstance(st, ast.Assign) and isinstance(st.targets[0], ast.Tuple) and isinstance(st.value, ast.Call) and nospace(st.value.func) == fact.short:
+            elts = st.targets[0].elts
+            if pos is not None and pos < len(elts) and isinstance(elts[pos], ast.Name):
+                counter_local = elts[pos].id
+            if isinstance(elts[-1], ast.Name):
+                info_local = elts[-1].id
+    # N as `base + offset` over the counter or the runner's iteration count
+    root = size_text.split("-")[0].split("+")[0]
+    e = None
+    for st in df.body_nodes(lanczos.node):
+        if isinstance(st, ast.Assign):
+            for t, v in (zip(st.targets[0].elts, st.value.elts) if isinstance(st.targets[0], ast.Tuple) and isinstance(st.value, ast.Tuple) and len(st.targets[0].elts) == len(st.value.elts)
+                         else [(st.targets[0], st.value)]):
+                if isinstance(t, ast.Name) and t.id == root:
+                    e = v
+    if e is None:
+        rep.undecided("trimming", "lanczos:count", f"definition of the size `{root}` not found")
+        return
+
+    def affine(x):
+        """(kind, offset): kind 'counter' / 'cond-evaluations' / None"""
+        if isinstance(x, ast.BinOp) and isinstance(x.op, (ast.Add, ast.Sub)) and isinstance(x.right, ast.Constant) and isinstance(x.right.value, int):
+            k, off = affine(x.left)
+            return k, (off + (x.right.value if isinstance(x.op, ast.Add) else -x.right.value)) if k else 0
+        if isinstance(x, ast.Name) and x.id == counter_local:
+            return "counter", 0
+        if isinstance(x, ast.Subscript) and isinstance(x.value, ast.Name) and x.value.id == info_local and isinstance(x.slice, ast.Constant) and x.slice.value == "iterations":
+            return "cond-evaluations", 0
+        if isinstance(x, ast.Call) and isinstance(x.func, ast.Name) and x.func.id == "int" and x.args:
+            return affine(x.args[0])
+        return None, 0
+
+    kind_, off = affine(e)
+    loc = [idx.loc(lanczos.module, lanczos.node)]
+    if kind_ == "cond-evaluations":
+        # read off the loop runners: `info['iterations'] += 1` sits in the function that is handed to while_loop as the CONDITION
+        confirmed = []
+        for f in idx.funcs_named("while_loop_winfo"):
+            for inc in [n for n in ast.walk(f.node) if isinstance(n, ast.AugAssign) and isinstance(n.op, ast.Add) and isinstance(n.target, ast.Subscript)
+                        and isinstance(n.target.slice, ast.Constant) and n.target.slice.value == "iterations"]:
+                owner = inc
+                while owner is not None and not isinstance(owner, (ast.FunctionDef, ast.Lambda)):
+                    owner = getattr(owner, "_parent", None)
+                as_cond = any(isinstance(c, ast.Call) and nospace(c.func).endswith("while_loop") and c.args and isinstance(c.args[0], ast.Name) and owner is not None
+                              and c.args[0].id == getattr(owner, "name", None) for c in ast.walk(f.node))
+                confirmed.append(as_cond)
+        if not confirmed or not all(confirmed):
+            rep.undecided("trimming", "lanczos:count", f"N = `{ast.unparse(e)}`: what the runner's 'iterations' counts could not be read off while_loop_winfo", locs=loc)
+            return
+    if kind_ == "counter" and start_v is not None:
+        ok = off == -start_v
+        rep.decide(ok, "trimming", "lanczos:count", f"N = `{ast.unparse(e)}`: the loop counter starts at {start_v}, so the steps run are counter - {start_v}" + ("" if ok else f"; N is off by {off + start_v}"),
+                   detail="" if ok else "count", locs=loc)
+    elif kind_ == "cond-evaluations":
+        ok = off == -1
+        rep.decide(ok, "trimming", "lanczos:count", f"N = `{ast.unparse(e)}`: the runner's 'iterations' counts evaluations of the loop condition, one more than the steps run" +
+                   ("" if ok else f"; N is off by {off + 1}: one extra column of Q (a zero or un-normalised residual) and an extra zero row / column of T when the recurrence stops early"),
+                   detail="" if ok else "count", locs=loc)
+    else:
+        rep.undecided("trimming", "lanczos:count", f"N = `{ast.unparse(e)}` is not an offset of the loop counter or of the runner's iteration count", locs=loc)
